@@ -7,6 +7,7 @@ import (
 	"github.com/pkg/errors"
 
 	"github.com/liftbridge-io/liftbridge/server/logger"
+	"github.com/liftbridge-io/liftbridge/server/verifhook"
 )
 
 const defaultCompactMaxGoroutines = 10
@@ -105,6 +106,11 @@ func (c *compactCleaner) compact(hw int64, segments []*segment) ([]*segment,
 		if cleaned != nil {
 			compacted = append(compacted, cleaned)
 		}
+		if verifhook.Enabled {
+			if err := verifhook.Point("compact.afterSegment"); err != nil {
+				return nil, nil, 0, err
+			}
+		}
 		removed += msgsRemoved
 	}
 
@@ -132,6 +138,11 @@ func (c *compactCleaner) cleanSegment(seg *segment, keyOffsets *sync.Map, hw int
 	cleaned, err := seg.Cleaned()
 	if err != nil {
 		return nil, 0, err
+	}
+	if verifhook.Enabled {
+		if err := verifhook.Point("compact.afterCreateCleaned"); err != nil {
+			return nil, 0, err
+		}
 	}
 	var (
 		ss      = newSegmentScanner(seg)
@@ -167,6 +178,11 @@ func (c *compactCleaner) cleanSegment(seg *segment, keyOffsets *sync.Map, hw int
 		}
 	}
 
+	if verifhook.Enabled {
+		if err := verifhook.Point("compact.afterWriteCleaned"); err != nil {
+			return nil, removed, err
+		}
+	}
 	if cleaned.IsEmpty() {
 		// If the new segment is empty, remove it along with the old one.
 		return nil, removed, cleanupEmptySegment(cleaned, seg)
@@ -226,6 +242,11 @@ func cleanupEmptySegment(new, old *segment) error {
 	// Delete the new segment if it's empty.
 	if err := new.Delete(); err != nil {
 		return err
+	}
+	if verifhook.Enabled {
+		if err := verifhook.Point("compact.emptyAfterDeleteNew"); err != nil {
+			return err
+		}
 	}
 	// Also delete the old segment since it's been compacted. Set the replaced
 	// flag since this is in the read path.
